@@ -49,7 +49,15 @@ def run_variant(v, build=True):
     tmp, dst, vd = scratch_copy()
     try:
         res = {"id": v["id"], "prop": v["prop"], "expect": v.get("rule", "")}
-        edits = v.get("edits") or [{"file": v["file"], "old": v["old"], "new": v["new"]}]
+        # "rename": [[regex, replacement], ...] applied to every non-test .go file (identifier renames)
+        for pat, rep in v.get("rename", []):
+            import re
+            for f in os.listdir(dst):
+                if f.endswith(".go"):
+                    fp = os.path.join(dst, f)
+                    src = open(fp).read()
+                    open(fp, "w").write(re.sub(pat, rep, src))
+        edits = v.get("edits") or ([{"file": v["file"], "old": v["old"], "new": v["new"]}] if "file" in v else [])
         for e in edits:
             p = os.path.join(dst, e["file"])
             s = open(p).read()
